@@ -23,6 +23,7 @@ import vlib
 
 IMPORTS = ["Model.Result", "Model.Dispatcher", "Model.DispatcherObs", "Model.Unit"]
 PRELUDE = "From Coq Require Import List NArith ZArith Bool.\nImport ListNotations.\nOpen Scope N_scope.\n"
+EXTRA_TARGETS = ["Model/DispatcherObs.vo", "Model/Unit.vo"]
 REASONS = ["SetupScriptFailure", "TestFailure", "ReportError", "Signal", "Interrupt", "SecondSignal"]
 RANK = {r: i for i, r in enumerate(REASONS)}
 SIGS = ["hup", "term", "quit", "int"]
